@@ -985,3 +985,124 @@ class ChainGrammar:
 
 
 from values import UNIT as V_UNIT
+
+
+# ---------------------------------------------------------------------------------------------
+# print_js (C10c): removal of the superseded comment and the inline trailer -- queries discharged by cvc5
+
+import subprocess
+import tempfile
+
+
+def cvc5_check(assertions, timeout_s=60):
+    """-> ('sat', model dict) | ('unsat', None) | ('unknown', text)"""
+    s = z3.Solver()
+    s.add(assertions)
+    text = s.to_smt2()
+    text = '(set-logic ALL)\n(set-option :produce-models true)\n(set-option :strings-exp true)\n' + '\n'.join(l for l in text.split('\n') if not l.startswith('(set-info')) + '\n(get-model)\n'
+    with tempfile.NamedTemporaryFile('w', suffix='.smt2', delete=False, dir='/tmp') as f:
+        f.write(text)
+        path = f.name
+    try:
+        r = subprocess.run(['cvc5', '--lang', 'smt2', '--tlimit=%d' % (timeout_s * 1000), path], capture_output=True, text=True, timeout=timeout_s + 10)
+    except subprocess.TimeoutExpired:
+        return 'unknown', 'timeout'
+    finally:
+        try:
+            os.unlink(path)
+        except OSError:
+            pass
+    out = r.stdout.strip()
+    if out.startswith('unsat'):
+        # (the trailing get-model then reports an error, which is expected)
+        return 'unsat', None
+    if '(error' in out or '(error' in r.stderr:
+        return 'unknown', (out + r.stderr)[:500]
+    if out.startswith('sat'):
+        model = {}
+        for m in re.finditer(r'\(define-fun (\|[^|]*\||\S+) \(\) (\w+) ("(?:[^"]|"")*"|true|false|\(?-? ?\d+\)?)\)', out):
+            name = m.group(1).strip('|')
+            val = m.group(3)
+            if val.startswith('"'):
+                val = val[1:-1].replace('""', '"')
+                val = re.sub(r'\\u\{([0-9a-fA-F]+)\}', lambda mm: chr(int(mm.group(1), 16)), val)
+            elif val in ('true', 'false'):
+                val = val == 'true'
+            else:
+                val = int(val.replace('(', '').replace(')', '').replace(' ', ''))
+            model[name] = val
+        return 'sat', model
+    return 'unknown', out[:500]
+
+
+import os
+
+
+class PrintScenario:
+    """rewriter::print_js(code, source_map, original_source_map, config) with symbolic strings.
+    Precondition encoded: when a superseded comment `c` is present, the printed code has the form pre ++ "//" ++ c ++ post
+    (that occurrence is the comment), c starts with `# sourceMappingURL=` and has no line break; everything else arbitrary
+    (bounded lengths)."""
+
+    def __init__(self, max_len=24):
+        self.max_len = max_len
+
+    def grammar(self, ctx, program):
+        return ExtractGrammar(ctx, program)
+
+    def run(self, I):
+        ctx = I.ctx
+        comments = [True, False][ctx.choose([True, True], 'config.print_comments')]
+        has_comment = [True, False][ctx.choose([True, True], 'superseded comment present')]
+        nonempty_map = [True, False][ctx.choose([True, True], 'source map non-empty')]
+        S = z3.StringSort()
+        pre, post, tail = ctx.var('pre', S), ctx.var('post', S), ctx.var('tail', S)
+        code = ctx.var('code', S)
+        smap = ctx.var('source_map', S)
+        cterm = None
+        if has_comment:
+            cterm = z3.Concat(z3.StringVal('# sourceMappingURL='), tail)
+            ctx.add(z3.And(code == z3.Concat(pre, z3.StringVal('//'), cterm, post), z3.Length(pre) <= self.max_len, z3.Length(post) <= 4, z3.Length(tail) <= 3, z3.Not(z3.Contains(tail, z3.StringVal('\n')))), dom=False)
+        else:
+            ctx.add(z3.Length(code) <= self.max_len, dom=False)
+        ctx.add((z3.Length(smap) > 0) if nonempty_map else (smap == z3.StringVal('')), dom=False)
+        ctx.add(z3.Length(smap) <= 6, dom=False)
+        csi = mk_csi_methods(I, [])
+        cfg = mk_config(I, csi, chain=False, comments=comments)
+        osm = Adt('OriginalSourceMap', None, [models.none(), models.some(StrV(cterm)) if has_comment else models.none()])
+        r = I.call_path('rewriter::print_js', [StrV(code), StrV(smap), Ptr(Cell(osm)), Ptr(Cell(cfg))], None)
+        return {'result': r, 'comments': comments, 'has_comment': has_comment, 'nonempty_map': nonempty_map, 'code': code, 'smap': smap, 'pre': pre, 'post': post, 'cterm': cterm, 'I': I}
+
+    def check_path(self, I, ctx, res, replay, do_tv):
+        info = {'violations': [], 'tv': None, 'sample': None, 'obligations': 1, 'hooks': 1}
+        r = models.deref(res['result'])
+        out = r.fields[0] if isinstance(r, Adt) and r.ty == 'Cow' else r
+        out = out.z() if isinstance(out, StrV) else out
+        if res['comments'] and res['has_comment']:
+            final_code = z3.Concat(res['pre'], z3.StringVal('//'), res['post'])
+        else:
+            final_code = res['code']
+        if res['nonempty_map']:
+            expected = z3.Concat(final_code, z3.StringVal('\n//# sourceMappingURL=data:application/json;base64,'), models.B64(res['smap']))
+        else:
+            expected = final_code
+        verdict, model = cvc5_check(list(ctx.solver.assertions()) + [out != expected])
+        desc = {'print_comments': res['comments'], 'comment_present': res['has_comment'], 'map_non_empty': res['nonempty_map']}
+        info['sample'] = {'input': json.dumps(desc), 'output': verdict, 'status': 'n/a', 'hooks': 0}
+        ctx.queries += 1
+        if verdict == 'unknown':
+            raise Unsupported('cvc5 could not decide the print_js query: %s' % model)
+        if verdict == 'sat':
+            code = model.get('code', '')
+            comment = ('# sourceMappingURL=' + model.get('tail', '')) if res['has_comment'] else None
+            smap = model.get('source_map', '')
+            nat = replay().print_js(code, smap, comment, {'methods': None, 'comments': res['comments'], 'chain': False})
+            pre, post = model.get('pre', ''), model.get('post', '')
+            import base64
+            exp_code = (pre + '//' + post) if (res['comments'] and res['has_comment']) else code
+            exp = exp_code + (('\n//# sourceMappingURL=data:application/json;base64,' + base64.b64encode(smap.encode('utf8')).decode('ascii')) if smap else '')
+            agree = nat.get('ok') and nat.get('content') != exp
+            role = 'print/comment-removal-alters-other-text' if (res['comments'] and res['has_comment']) else 'print/unexpected-content'
+            info['violations'].append({'prop': 'C10', 'role': role, 'detail': 'code=%r comment=%r -> %r, expected %r' % (code, comment, nat.get('content'), exp),
+                                       'witness': {'input': code, 'config': desc, 'agree': bool(agree), 'native_output': nat.get('content'), 'predicted_output': exp, 'native': {'ok': nat.get('ok')}, 'note': 'query decided by cvc5 (str.replace_all)'}})
+        return info
